@@ -14,9 +14,15 @@
 #include "hcommon.h"
 #include <map>
 #include <cmath>
+#define private public
+#define protected public
 #include "inc/Main.h"
+#include "inc/Face.h"
 #include "inc/Segment.h"
 #include "inc/Slot.h"
+#include "inc/Collider.h"
+#undef private
+#undef protected
 
 // ---------------------------------------------------------------- event trace (GRAPHITE2_VERIF hooks in the library)
 static bool g_trace = false;
@@ -301,6 +307,73 @@ int main(int argc, char **argv) {
     while (std::getline(std::cin, line)) {
         std::vector<std::string> f = split_ws(line);
         case_begin(f.empty() ? std::string("?") : f[0]);
+        if (f.size() >= 6 && f[1] == "synth") {
+            // <id> synth <font> <rtl> <ppm,ppm,...|-> <par,shx,shy,advx,advy,atx,aty,wx,wy,just> ...
+            // final positioning on a hand-built attachment forest (C15): the slots of an N-character segment get the given
+            // positioning inputs and attachment links (Slot::attachTo / Slot::child), then Segment::positionSlots runs with
+            // font = NULL, with unhinted fonts of 2 and 3 times the units per em, and with each requested ppm
+            using namespace graphite2;
+            const std::string &id = f[0];
+            gr_face *face = get_face(f[2], 0, false);
+            if (!face) { printf("%s NOFACE\n", id.c_str()); fflush(stdout); case_end(); continue; }
+            bool rtl = atoi(f[3].c_str()) & 1;
+            size_t n = f.size() - 5;
+            std::vector<uint32_t> u(n + 1, 0x41); u[n] = 0;
+            Segment *pseg = new Segment(n, face, 0, rtl ? 1 : 0);
+            Features *feats = face->theSill().cloneFeatures(0);
+            bool okread = pseg->read_text(face, feats, gr_utf32, u.data(), n);
+            delete feats;
+            std::vector<Slot *> sl; for (Slot *q = pseg->first(); q; q = q->next()) sl.push_back(q);
+            if (!okread || sl.size() != n) { delete pseg; printf("%s NULLSEG\n", id.c_str()); fflush(stdout); case_end(); continue; }
+            std::vector<std::vector<double> > in(n);
+            for (size_t i = 0; i < n; i++) { std::istringstream is(f[5 + i]); std::string x; while (std::getline(is, x, ',')) in[i].push_back(atof(x.c_str())); in[i].resize(10, 0.0); }
+            for (size_t i = 0; i < n; i++) {
+                Slot *q = sl[i]; const std::vector<double> &v = in[i];
+                q->m_shift = Position((float)v[1], (float)v[2]); q->m_advance = Position((float)v[3], (float)v[4]);
+                q->m_attach = Position((float)v[5], (float)v[6]); q->m_with = Position((float)v[7], (float)v[8]); q->m_just = (float)v[9];
+                int par = (int)v[0];
+                if (par >= 0 && (size_t)par < n && (size_t)par != i) { q->attachTo(sl[par]); sl[par]->child(q); }
+            }
+            unsigned upem = face->glyphs().unitsPerEm();
+            Walk w; walk_from(gr_seg_first_slot(static_cast<gr_segment *>(pseg)), 2 * n + 8, w);
+            // a fresh segment's slots start at (0,0); slots beyond the depth cut-off keep that
+#define RESETPOS for (size_t i = 0; i < n; i++) sl[i]->m_position = Position(0, 0)
+            RESETPOS;
+            Position a1 = pseg->positionSlots(0, 0, 0, rtl, true);
+            std::string x = id + " SYNTH | X rtl=" + std::to_string((int)rtl) + " dir=" + std::to_string((int)rtl) + " upem=" + std::to_string(upem) + " adv=" + fnum(a1.x) + "," + fnum(a1.y) + " S";
+            for (size_t i = 0; i < n; i++) {
+                const Slot *q = sl[i]; char t4[400];
+                snprintf(t4, sizeof t4, " %d,%d,%d,%s,%s,%s,%s,%s,%s,%s,%s,%s,0,0,0,%s,%s", posof(w, static_cast<const gr_slot *>(q->attachedTo())), posof(w, static_cast<const gr_slot *>(q->firstChild())), posof(w, static_cast<const gr_slot *>(q->nextSibling())),
+                         fnum(q->m_shift.x).c_str(), fnum(q->m_shift.y).c_str(), fnum(q->m_advance.x).c_str(), fnum(q->m_advance.y).c_str(), fnum(q->m_attach.x).c_str(), fnum(q->m_attach.y).c_str(),
+                         fnum(q->m_with.x).c_str(), fnum(q->m_with.y).c_str(), fnum(q->m_just).c_str(), fnum(q->origin().x).c_str(), fnum(q->origin().y).c_str());
+                x += t4;
+            }
+            std::string a0 = " | A";
+            for (size_t i = 0; i < n; i++) a0 += " " + fnum(gr_slot_advance_X(static_cast<const gr_slot *>(sl[i]), face, 0)) + "," + fnum(gr_slot_advance_Y(static_cast<const gr_slot *>(sl[i]), face, 0));
+            for (int kk = 2; kk <= 3; kk++) {
+                gr_font *fk = gr_make_font((float)(kk * upem), face);
+                RESETPOS;
+                Position ak = pseg->positionSlots(fk, 0, 0, rtl, true);
+                x += " K" + std::to_string(kk) + " adv=" + fnum(ak.x) + "," + fnum(ak.y);
+                for (size_t i = 0; i < n; i++) x += " " + fnum(sl[i]->origin().x) + "," + fnum(sl[i]->origin().y) + ",0";
+                gr_font_destroy(fk);
+            }
+            x += a0;
+            if (f[4] != "-") {
+                std::istringstream is(f[4]); std::string ps;
+                while (std::getline(is, ps, ',')) {
+                    gr_font *fk = gr_make_font((float)atof(ps.c_str()), face);
+                    RESETPOS;
+                Position ak = pseg->positionSlots(fk, 0, 0, rtl, true);
+                    x += " | P " + ps + " adv=" + fnum(ak.x) + "," + fnum(ak.y);
+                    for (size_t i = 0; i < n; i++) x += " " + fnum(sl[i]->origin().x) + "," + fnum(sl[i]->origin().y) + "," + fnum(gr_slot_advance_X(static_cast<const gr_slot *>(sl[i]), face, fk)) + "," + fnum(gr_slot_advance_Y(static_cast<const gr_slot *>(sl[i]), face, fk));
+                    gr_font_destroy(fk);
+                }
+            }
+            delete pseg;
+            printf("%s\n", x.c_str()); fflush(stdout); case_end();
+            continue;
+        }
         if (f.size() < 11 || f[1] != "shape") { printf("%s BAD\n", f.empty() ? "?" : f[0].c_str()); continue; }
         const std::string &id = f[0];
         unsigned opts = atoi(f[3].c_str());
@@ -349,6 +422,41 @@ int main(int argc, char **argv) {
             for (size_t k = 10; k < f.size(); k++) {
                 const std::string &op = f[k];
                 if (op == "dump" || op == "nchars+" || op == "-" || op == "jtrace") continue;
+                if (op == "redump") { out += " | " + dump(seg, face, font, true); continue; }     // the dump again, after the preceding ops
+                if (op == "posdump") {
+                    // inputs and outputs of final positioning, for the C15 correspondence (Model/PosModel.v): design-unit inputs of every
+                    // slot, the origins with font = NULL, and the origins / advance with unhinted fonts of 2 and 3 times the units per em
+                    graphite2::Segment *gs = static_cast<graphite2::Segment *>(seg);
+                    Walk w; walk_from(gr_seg_first_slot(seg), 2 * (size_t)gr_seg_n_slots(seg) + 8, w);
+                    bool rtl = gs->silf()->dir() & 1;
+                    unsigned upem = gs->getFace()->glyphs().unitsPerEm();
+                    std::string x = " | X rtl=" + std::to_string((int)rtl) + " dir=" + std::to_string(dir & 1) + " upem=" + std::to_string(upem) + " adv=" + fnum(gr_seg_advance_X(seg)) + "," + fnum(gr_seg_advance_Y(seg)) + " S";
+                    for (size_t i = 0; i < w.s.size(); i++) {
+                        const graphite2::Slot *sl = static_cast<const graphite2::Slot *>(w.s[i]);
+                        float cx = 0, cy = 0; int ckern = 0;
+                        graphite2::SlotCollision *coll = gs->collisionInfo(sl);
+                        if (coll) { cx = coll->offset().x; cy = coll->offset().y; ckern = (coll->flags() & graphite2::SlotCollision::COLL_KERN) ? 1 : 0; }
+                        char t4[400];
+                        snprintf(t4, sizeof t4, " %d,%d,%d,%s,%s,%s,%s,%s,%s,%s,%s,%s,%s,%s,%d,%s,%s", posof(w, gr_slot_attached_to(w.s[i])), posof(w, gr_slot_first_attachment(w.s[i])),
+                                 posof(w, gr_slot_next_sibling_attachment(w.s[i])), fnum(sl->m_shift.x).c_str(), fnum(sl->m_shift.y).c_str(), fnum(sl->m_advance.x).c_str(), fnum(sl->m_advance.y).c_str(),
+                                 fnum(sl->m_attach.x).c_str(), fnum(sl->m_attach.y).c_str(), fnum(sl->m_with.x).c_str(), fnum(sl->m_with.y).c_str(), fnum(sl->m_just).c_str(),
+                                 fnum(cx).c_str(), fnum(cy).c_str(), ckern, fnum(gr_slot_origin_X(w.s[i])).c_str(), fnum(gr_slot_origin_Y(w.s[i])).c_str());
+                        x += t4;
+                    }
+                    for (int kk = 2; kk <= 3; kk++) {
+                        gr_font *fk = gr_make_font((float)(kk * upem), face);
+                        gr_segment *sk = gr_make_seg(fk, face, 0, fv, ef, buf, nchars, dir);
+                        x += " K" + std::to_string(kk);
+                        if (sk) {
+                            x += " adv=" + fnum(gr_seg_advance_X(sk)) + "," + fnum(gr_seg_advance_Y(sk));
+                            for (const gr_slot *q = gr_seg_first_slot(sk); q; q = gr_slot_next_in_segment(q)) x += " " + fnum(gr_slot_origin_X(q)) + "," + fnum(gr_slot_origin_Y(q)) + "," + std::to_string(gr_slot_gid(q));
+                            gr_seg_destroy(sk);
+                        }
+                        gr_font_destroy(fk);
+                    }
+                    out += x;
+                    continue;
+                }
                 if (op == "trace") {
                     const graphite2::Segment *gs = static_cast<const graphite2::Segment *>(seg);
                     std::string cin = "{";
